@@ -472,13 +472,13 @@ def canc_set(prog):
     call such a function, and return a Result with ExecutionError"""
     cg = prog.callgraph()
     canc = set()
-    for f in prog.fns.values():
+    for f in prog.shape_fns():
         if f.body is not None and poll_blocks(f.body):
             canc.add(f.id)
     changed = True
     while changed:
         changed = False
-        for f in prog.fns.values():
+        for f in prog.shape_fns():
             if f.id in canc or f.body is None:
                 continue
             ret = f.output
@@ -500,7 +500,7 @@ def _run_e2c(prog, rep):
     """(i) check()'s result goes straight into `?`; (ii) results of may-cancel calls are only
     touched by ?, return and with_context; (iii) with_context returns Cancelled unchanged"""
     n_polls = 0
-    for f in sorted(prog.fns.values(), key=lambda x: x.id):
+    for f in sorted(prog.shape_fns(), key=lambda x: x.id):
         if f.body is None:
             continue
         body = f.body
@@ -528,7 +528,7 @@ def _run_e2c(prog, rep):
     canc = canc_set(prog)
     cg = prog.callgraph()
     n_sites = 0
-    for f in sorted(prog.fns.values(), key=lambda x: x.id):
+    for f in sorted(prog.shape_fns(), key=lambda x: x.id):
         if f.body is None or f.crate.prefix != "tsg":
             continue   # the API boundary of the property is the library's execute()
         body = f.body
@@ -620,9 +620,9 @@ def _run_e2c(prog, rep):
                 rep.ok("E2.c", key, sp_str(t["sp"]), "propagated by ?/return%s" % (" through with_context" if any(c.chain for c in cons) else ""))
     # (ii') a closure that may return Cancelled: whoever runs it must keep its errors (map+collect::<Result>, try_for_each …; not
     # flat_map / filter_map / last / for_each, which drop them and let the execution carry on)
-    n_sites += _closure_results(prog, rep, [f for f in sorted(prog.fns.values(), key=lambda x: x.id) if f.kind == "closure" and f.id in canc and f.crate.prefix == "tsg"], "E2.c")
+    n_sites += _closure_results(prog, rep, [f for f in sorted(prog.shape_fns(), key=lambda x: x.id) if f.kind == "closure" and f.id in canc and f.crate.prefix == "tsg"], "E2.c")
     # (iii)
-    wc = [f for f in prog.fns.values() if f.name == "with_context" and f.trait == "tsg::execution::error::ResultWithExecutionError"]
+    wc = [f for f in prog.shape_fns() if f.name == "with_context" and f.trait == "tsg::execution::error::ResultWithExecutionError"]
     ok3 = False
     from ..lib.cfgq import reach_const_aware
     for f in wc:
@@ -721,7 +721,7 @@ def run_e2p(prog, rep):
                     used_polls.add((f.id, b))
                 rep.ok("E2.p", key, f.loc(), "inside the scan loop every path from the loop head to Regex::captures passes a poll")
     # (4) lazy match visitor
-    for f in prog.fns.values():
+    for f in prog.shape_fns():
         if f.kind == "closure" and f.parent and f.parent.endswith("execute_lazy_into") and f.body is not None:
             targets = _handler_calls(prog, f.body, lambda g: g.self_path == "tsg::ast::Stanza" and g.name == "execute_lazy")
             if targets:
@@ -736,7 +736,7 @@ def run_e2p(prog, rep):
         oblige(f, "deferred value", [0], targets, "the evaluation of a deferred value")
     # every poll site in the crate must serve an obligation
     total = 0
-    for f in prog.fns.values():
+    for f in prog.shape_fns():
         if f.body is None:
             continue
         for b in poll_blocks(f.body):
